@@ -905,6 +905,32 @@ Definition mem_tag (m : mem) (s n t f : str) : option str :=
 (* the answer of an Eups whose product stacks are m (noCache=False) *)
 Definition q_cache (m : mem) (q : query) : answer := q_eval (mem_decl m) (mem_tag m) (map fst m) q.
 
+(* [q_cache] is the pinned Eups.findProduct / _findTaggedProduct / _findLatestProduct / _findProductsByExpr:
+   a flavor for which the stack was not loaded has no product in the cache and the answer is that nothing is
+   declared.  Repaired (Eups._readDatabase): the cache of a stack is consulted for the flavors it was loaded
+   for, the database files for any other flavor, as for a stack without a cache. *)
+Definition srv_decl (w : world) (m : mem) (s n v f : str) : option vrec :=
+  match alookup s m with
+  | Some ps => match alookup f (ps_lookup ps) with
+               | Some fd => fd_decl fd n v
+               | None => db_decl (w_db w) s n v f
+               end
+  | None => None
+  end.
+
+Definition srv_tag (w : world) (m : mem) (s n t f : str) : option str :=
+  match alookup s m with
+  | Some ps => match alookup f (ps_lookup ps) with
+               | Some fd => fd_tag fd n t
+               | None => db_tag (w_db w) s n t f
+               end
+  | None => None
+  end.
+
+(* the answer of the repaired Eups whose product stacks are m, in world w (noCache=False) *)
+Definition q_served (w : world) (m : mem) (q : query) : answer :=
+  q_eval (srv_decl w m) (srv_tag w m) (map fst m) q.
+
 (* the answer read from the version and chain files (noCache=True) *)
 Definition q_db (w : world) (q : query) : answer :=
   q_eval (db_decl (w_db w)) (db_tag (w_db w)) (map fst (w_db w)) q.
@@ -949,6 +975,26 @@ Definition ufile_tag (w : world) (u s n t f : str) : option str :=
 
 Definition uq_files (w : world) (u : str) (q : uquery) : answer :=
   uq_eval (db_decl (w_db w)) (ufile_tag w u) (map fst (w_db w)) q.
+
+(* the repaired answers about user tags: for a flavor the stack was not loaded for, what the files say --
+   product.tags lists the chain files of the tag directory (fb = uc_tag), findTaggedProduct reads
+   Database.getChainFile (fb = ufile_tag) *)
+Definition srv_utag (fb : str -> str -> str -> str -> option str) (m : mem) (s n t f : str) : option str :=
+  match alookup s m with
+  | Some ps => match alookup f (ps_lookup ps) with
+               | Some fd => fd_utag fd n t
+               | None => fb s n t f
+               end
+  | None => None
+  end.
+
+Definition uq_served (w : world) (m : mem) (u : str) (q : uquery) : answer :=
+  uq_eval (srv_decl w m)
+          (srv_utag (match q with
+                     | UQHasTag _ _ _ _ _ => fun s n t f => uc_tag (w_uc w) u s n t f
+                     | _ => ufile_tag w u
+                     end) m)
+          (map fst m) q.
 
 (* ---------------------------------------------------------------- the vocabulary of the theorems *)
 
